@@ -128,3 +128,182 @@ Print Assumptions C10_cache_independent.
 Print Assumptions C10_set.
 Print Assumptions C10_NoDup.
 Print Assumptions C10_refuted_first_object.
+
+(* ================================================================== *)
+From Pcfg Require Import OmenGenRt OmenGenRtProofs OmenGenOptProofs OmenGenGsProofs OmenGenGsNextProofs OmenGenMcProofs
+     OmenGenGenProofs.
+From PcfgGen Require Import Consts_gen OmenGen_opt_gen OmenGen_gs_gen OmenGen_mc_gen.
+(* Translator tie (second tie to the source): gen/OmenGen_{opt,gs,mc}_gen.v are
+   re-translated from the Python text of optimizer.py, guess_structure.py and
+   markov_cracker.py on every run (harness/translate_omen_gen.py); the theorems
+   below say that the translated methods compute what the model of Omen.v
+   computes, for all inputs, and restate the main theorems over them. *)
+
+(* ---- Optimizer ---- *)
+Theorem C10_source_optimizer_init_is_model : forall fuel optmax,
+  exists o, py_opt_init fuel (Z.of_nat optmax) = Ok o /\ crel optmax o cempty.
+Proof. exact gen_opt_init. Qed.
+
+Theorem C10_source_optimizer_lookup_is_model : forall fuel optmax o c k p l,
+  crel optmax o c -> k <= optmax ->
+  py_opt_lookup fuel o p (Z.of_nat k) l =
+  Ok (match clookup c (k, p, l) with Some v => (true, otree_py v) | None => (false, None) end).
+Proof. exact gen_opt_lookup. Qed.
+
+Theorem C10_source_optimizer_update_is_model : forall fuel optmax o c k p l v,
+  crel optmax o c -> k <= optmax -> v <> Some [] ->
+  exists o', py_opt_update fuel o p (Z.of_nat k) l (otree_py v) = Ok (tt, o') /\
+             crel optmax o' (cupdate c (k, p, l) v).
+Proof. exact gen_opt_update. Qed.
+
+(* ---- GuessStructure ---- *)
+Theorem C10_source_find_cp_is_model : forall cp maxl, cp_nonempty cp ->
+  forall fuel self p top bottom, gs_ok cp maxl self ->
+  fuel > Z.to_nat (Z.min top (Z.of_nat maxl) - bottom + 1) ->
+  py_gs_find_cp fuel self p top bottom = Ok (fcp_py cp p (find_cp (cpf_of cp) maxl p top bottom)).
+Proof. exact gen_find_cp. Qed.
+
+Theorem C10_source_fill_out_parse_tree_is_model : forall cp maxl optmax, cp_nonempty cp ->
+  forall self, gs_ok cp maxl self ->
+  forall k fuel o c p lvl, 1 <= k -> crel optmax o c -> fuel >= fill_fuel cp maxl k ->
+  exists o', py_gs_fill_out_parse_tree fuel self o p (Z.of_nat k) lvl =
+               Ok (otree_py (fst (fill (cpf_of cp) maxl optmax k c p lvl)), o') /\
+             crel optmax o' (snd (fill (cpf_of cp) maxl optmax k c p lvl)).
+Proof. exact gen_fill. Qed.
+
+Theorem C10_source_format_guess_is_model : forall cp maxl, cp_nonempty cp ->
+  forall fuel self T, gs_cp self = cp -> tree_valid cp maxl T ->
+  py_gs_format_guess fuel (with_pt self T) = Ok (format_guess (cpf_of cp) (gs_ip self) T).
+Proof. exact gen_format_guess. Qed.
+
+Theorem C10_source_gs_next_guess_is_model : forall cp maxl optmax, cp_nonempty cp ->
+  forall self, gs_ok cp maxl self ->
+  forall fuel s o c k t,
+  inv cp maxl optmax o c -> 1 <= k ->
+  t = [] \/ In t (completions_f (cpf_of cp) maxl k (gs_ip self) (gs_target_level self)) ->
+  gs_cp_length self = Z.of_nat k ->
+  s = with_pt self t \/ t = [] /\ s = set_gs_parse_tree self None ->
+  fuel >= gs_fuel cp maxl k t ->
+  exists o' pt',
+    py_gs_next_guess fuel s o =
+      Ok (option_map (format_guess (cpf_of cp) (gs_ip self))
+                     (fst (gs_next (cpf_of cp) maxl optmax c (gs_ip self) k (gs_target_level self) t)),
+          set_gs_parse_tree self pt', o') /\
+    inv cp maxl optmax o' (snd (gs_next (cpf_of cp) maxl optmax c (gs_ip self) k (gs_target_level self) t)) /\
+    match fst (gs_next (cpf_of cp) maxl optmax c (gs_ip self) k (gs_target_level self) t) with
+    | Some t' => pt' = Some (tree_py t') /\
+                 In t' (completions_f (cpf_of cp) maxl k (gs_ip self) (gs_target_level self))
+    | None => pt' = Some [] \/ pt' = None
+    end.
+Proof. exact gen_gs_next. Qed.
+
+(* ---- MarkovCracker ---- *)
+Theorem C10_source_find_first_object_is_model : forall maxl X fuel m (f : nat -> list X),
+  m_max_level m = Z.of_nat maxl ->
+  py_mc_find_first_object fuel m (Z.of_nat maxl, f) =
+  match find_first_object maxl omen_first_object_extra f with
+  | Some l => Ok (Z.of_nat l)
+  | None => Raise PyException
+  end.
+Proof. exact (fun maxl X fuel m f H => @gen_find_first_object maxl X fuel m f H C10_source_first_object_range). Qed.
+
+Theorem C10_source_mc_init_is_model : forall ipf lnf cp maxl ngramZ fuel T,
+  py_mc_init fuel (gram ipf lnf cp maxl ngramZ) T =
+  match mc_starts ipf lnf maxl omen_first_object_extra with
+  | Some (a, b) => Ok (py_obj ipf lnf cp maxl ngramZ a b T None None None)
+  | None => Raise PyException
+  end.
+Proof. exact (fun ipf lnf cp maxl ngramZ fuel T => gen_mc_init ipf lnf cp maxl ngramZ fuel T C10_source_first_object_range). Qed.
+
+Theorem C10_source_increase_ip_is_model : forall ipf lnf cp maxl ngramZ s_ip s_len fuel T lc ic g bound,
+  cvalid maxl lnf lc -> cvalid maxl ipf ic -> fuel > maxl ->
+  py_mc_increase_ip_for_target fuel
+    (py_obj ipf lnf cp maxl ngramZ s_ip s_len T (Some (cursor_py lc)) (Some (cursor_py ic)) g) bound =
+  Ok (match increase maxl ipf ic bound with
+      | Some ic' => (Some true, py_obj ipf lnf cp maxl ngramZ s_ip s_len T (Some (cursor_py lc)) (Some (cursor_py ic'))
+                                       (Some (gs_for ipf lnf cp maxl true lc ic' T (Some []))))
+      | None => (Some false, py_obj ipf lnf cp maxl ngramZ s_ip s_len T (Some (cursor_py lc)) (Some (cursor_py ic)) g)
+      end).
+Proof.
+  exact (fun ipf lnf cp maxl ngramZ s_ip s_len =>
+           gen_increase_ip ipf lnf cp maxl ngramZ s_ip s_len C10_source_first_object_range).
+Qed.
+
+Theorem C10_source_increase_len_is_model : forall ipf lnf cp maxl ngramZ s_ip s_len,
+  find_first_object maxl omen_first_object_extra ipf = Some s_ip ->
+  forall fuel T lc ic g, cvalid maxl lnf lc -> fuel > maxl ->
+  py_mc_increase_len_for_target fuel (py_obj ipf lnf cp maxl ngramZ s_ip s_len T (Some (cursor_py lc)) ic g) =
+  Ok (match increase maxl lnf lc T with
+      | Some lc' => (Some true, py_obj ipf lnf cp maxl ngramZ s_ip s_len T (Some (cursor_py lc')) (Some (cursor_py (s_ip, 0)))
+                                       (Some (gs_for ipf lnf cp maxl true lc' (s_ip, 0) T (Some []))))
+      | None => (Some false, py_obj ipf lnf cp maxl ngramZ s_ip s_len T (Some (cursor_py lc)) ic g)
+      end).
+Proof.
+  exact (fun ipf lnf cp maxl ngramZ s_ip s_len H =>
+           gen_increase_len ipf lnf cp maxl ngramZ s_ip s_len H C10_source_first_object_range).
+Qed.
+
+Theorem C10_source_mc_next_guess_is_model : forall ipf lnf cp maxl optmax ngramZ,
+  cp_nonempty cp -> (forall l k, In k (lnf l) -> 1 <= k) ->
+  forall s_ip s_len,
+  find_first_object maxl omen_first_object_extra ipf = Some s_ip ->
+  find_first_object maxl omen_first_object_extra lnf = Some s_len ->
+  forall fuelM fuel st m o c,
+  mc_rel ipf lnf cp maxl ngramZ s_ip s_len st m -> st_ok ipf lnf cp maxl st -> inv cp maxl optmax o c ->
+  fuel >= mc_py_fuel lnf cp maxl fuelM ->
+  fst (fst (mc_next ipf (cpf_of cp) lnf maxl optmax fuelM (s_ip, s_len) c st)) <> Omen.OutOfFuel ->
+  exists o2 m2,
+    py_mc_next_guess fuel m o =
+      Ok (out_py (fst (fst (mc_next ipf (cpf_of cp) lnf maxl optmax fuelM (s_ip, s_len) c st))), m2, o2) /\
+    inv cp maxl optmax o2 (snd (mc_next ipf (cpf_of cp) lnf maxl optmax fuelM (s_ip, s_len) c st)) /\
+    mc_rel ipf lnf cp maxl ngramZ s_ip s_len (snd (fst (mc_next ipf (cpf_of cp) lnf maxl optmax fuelM (s_ip, s_len) c st))) m2 /\
+    st_ok ipf lnf cp maxl (snd (fst (mc_next ipf (cpf_of cp) lnf maxl optmax fuelM (s_ip, s_len) c st))).
+Proof.
+  exact (fun ipf lnf cp maxl optmax ngramZ Hne Hpos s_ip s_len Ha Hb =>
+           gen_mc_next ipf lnf cp maxl optmax ngramZ Hne Hpos s_ip s_len Ha Hb C10_source_first_object_range).
+Qed.
+
+(* the table the loader builds has no empty level: the hypothesis of the equalities holds for every G *)
+Theorem C10_source_loader_table_nonempty : forall G, cp_nonempty (build_cp (og_cp G)).
+Proof. exact (fun G => build_cp_nonempty (og_cp G)). Qed.
+
+(* ---- the main theorems over the translated code: an Optimizer and a MarkovCracker
+   built by the translated constructors, next_guess called until None (py_mc_run) ---- *)
+Theorem C10_source_new_optimizer_is_sound : forall G fuel,
+  exists o, py_opt_init fuel (Z.of_nat omen_optimizer_max_length) = Ok o /\ oinv G omen_optimizer_max_length o cempty.
+Proof. exact (fun G => opt_init_translated G omen_optimizer_max_length). Qed.
+
+Theorem C10_source_exact : forall G T c o starts fuel,
+  oinv G omen_optimizer_max_length o c ->
+  mc_starts (ip_at G) (ln_at G) (og_max_level G) omen_first_object_extra = Some starts ->
+  fuel >= omen_fuel G ->
+  exists m0, py_mc_init fuel (gram_of G) T = Ok m0 /\
+  exists m2 o2 c2,
+    py_mc_run (S (length (level_strings G T))) fuel m0 o = Ok (level_strings G T, true, m2, o2) /\
+    oinv G omen_optimizer_max_length o2 c2.
+Proof. exact (fun G => exact_translated G omen_optimizer_max_length C10_source_first_object_range). Qed.
+
+Theorem C10_source_prefix_never_out_of_fuel : forall G T c o n starts fuel,
+  oinv G omen_optimizer_max_length o c ->
+  mc_starts (ip_at G) (ln_at G) (og_max_level G) omen_first_object_extra = Some starts ->
+  fuel >= omen_fuel G ->
+  exists m0, py_mc_init fuel (gram_of G) T = Ok m0 /\
+  exists m2 o2 c2,
+    py_mc_run n fuel m0 o = Ok (firstn n (level_strings G T), negb (Nat.leb n (length (level_strings G T))), m2, o2) /\
+    oinv G omen_optimizer_max_length o2 c2.
+Proof. exact (fun G => prefix_translated G omen_optimizer_max_length C10_source_first_object_range). Qed.
+
+Theorem C10_source_cache_independent : forall G T c1 o1 c2 o2 n starts fuel m0,
+  oinv G omen_optimizer_max_length o1 c1 -> oinv G omen_optimizer_max_length o2 c2 ->
+  mc_starts (ip_at G) (ln_at G) (og_max_level G) omen_first_object_extra = Some starts ->
+  fuel >= omen_fuel G ->
+  py_mc_init fuel (gram_of G) T = Ok m0 ->
+  exists r1 r2, py_mc_run n fuel m0 o1 = Ok r1 /\ py_mc_run n fuel m0 o2 = Ok r2 /\
+                fst (fst (fst r1)) = fst (fst (fst r2)) /\ snd (fst (fst r1)) = snd (fst (fst r2)).
+Proof. exact (fun G => cache_independent_translated G omen_optimizer_max_length C10_source_first_object_range). Qed.
+
+Print Assumptions C10_source_exact.
+Print Assumptions C10_source_cache_independent.
+Print Assumptions C10_source_gs_next_guess_is_model.
+Print Assumptions C10_source_fill_out_parse_tree_is_model.
+Print Assumptions C10_source_mc_next_guess_is_model.
